@@ -109,13 +109,13 @@ theorem comp_close_after_comma (s : SecDef) (hs : s = .optionalBinaryLeftToRight
   rcases hs with rfl | rfl | rfl <;> cases c <;> rfl
 
 /-- `prefix* ( fill* E trivia* , trivia* )` / `prefix* { .. }` is a complete operand -/
-theorem opd_bracket_comma {inner : List PToken} {ls : Bool} (pre : List PToken) (o c k : PToken)
-    (wsA ws1 wsB : List PToken) (hin : ExprOK ((getDefinition o.type).1 == .group) inner ls)
+theorem opd_bracket_comma {n : Nat} {inner : List PToken} {ls : Bool} (pre : List PToken) (o c k : PToken)
+    (wsA ws1 wsB : List PToken) (hin : ExprOK n ((getDefinition o.type).1 == .group) inner ls)
     (hpre : ∀ p ∈ pre, isPrefixTok p = true) (ho : isOpenTok o = true)
     (hc : isCloseFor (getDefinition o.type).1 c) (hwA : ∀ w ∈ wsA, isFillTok w = true)
     (hw1 : ∀ w ∈ ws1, isTriviaTok w = true) (hk : isCommaTok k = true) (hwB : ∀ w ∈ wsB, isTriviaTok w = true)
     (hne : inner ≠ []) :
-    OpdOK (pre ++ (o :: (wsA ++ (inner ++ (ws1 ++ (k :: (wsB ++ [c]))))))) := by
+    OpdOK n (pre ++ (o :: (wsA ++ (inner ++ (ws1 ++ (k :: (wsB ++ [c]))))))) := by
   intro st1 ug hO hprios hcg pos hnum rest
   obtain ⟨hk3, hkd⟩ := comma_facts hk
   have hsz1 := pushP_size pre st1
@@ -128,7 +128,7 @@ theorem opd_bracket_comma {inner : List PToken} {ls : Bool} (pre : List PToken) 
     bracket_open st1 ug pre o wsA (inner ++ (ws1 ++ (k :: (wsB ++ [c])))) rest hO hprios hpre ho hwA (by simp [hne])
   have hgO : sO'.nodes[(pushP st1 pre).nodes.size]? = some ⟨(getDefinition o.type).1, .startGrouping,
       (pushP st1 pre).nextParent, none, some ((pushP st1 pre).nodes.size + 1), o⟩ := by rw [hnO']; simp
-  obtain ⟨stE, E, re, cbE, hloopE, hinvE, hgsE, hcgE, ho1E, ho2E, hrdE, hrefE⟩ :=
+  obtain ⟨stE, E, re, cbE, hloopE, hinvE, hgsE, hcgE, ho1E, ho2E, hrdE, hcntE, hrefE⟩ :=
     hin sO' _ _ _ hOO' hfs hpriosO hcgO hkO hspO _ hnumI ((ws1 ++ (k :: (wsB ++ [c]))) ++ rest)
   obtain ⟨G', hG', hGr', hGd', hGp', hGl', hGt', hGs'⟩ := bracket_node hinvE hgO ho2E
   -- trivia, the comma
@@ -233,7 +233,15 @@ theorem opd_bracket_comma {inner : List PToken} {ls : Bool} (pre : List PToken) 
     (by show (if s1'.groupStack.pop.isEmpty then none else some (s1'.groupStack.pop.size - 1)) = _
         rw [hpop]; exact hcg.symm)
     rfl hsd pos _ hnum
-  refine ⟨stepCU s1' (pushP st1 pre).nodes.size false c nodes2, _, _, _, ?_, hres, hPl, ?_⟩
+  have hcnt : (chainR st1.nodes.size (pre.map (·.col)) (.node .nil (pushP st1 pre).nodes.size o.col
+      (insertC cbE (prioAt stE1.nodes) q false stE1.nodes.size k.col .nil E))).inorder.length +
+      st1.nodes.size + n = (stepCU s1' (pushP st1 pre).nodes.size false c nodes2).nodes.size := by
+    show _ = nodes2.size
+    rw [hs2, hnE1s, chainR_inorder, List.length_map]
+    simp only [Tree.inorder, List.nil_append, List.length_append, List.length_range', List.length_cons, insertC_inorder,
+      List.length_nil]
+    omega
+  refine ⟨stepCU s1' (pushP st1 pre).nodes.size false c nodes2, _, _, _, ?_, hres, hPl, hcnt, ?_⟩
   · have e3 : inner ++ (ws1 ++ (k :: (wsB ++ [c]))) ++ rest = inner ++ ((ws1 ++ (k :: (wsB ++ [c]))) ++ rest) := by simp
     have e4 : (ws1 ++ (k :: (wsB ++ [c]))) ++ rest = ws1 ++ ((k :: (wsB ++ [c])) ++ rest) := by simp
     rw [hloopO, e3, hloopE, e4, hloopW1]
